@@ -1984,6 +1984,7 @@ class XonshParser(Parser):
             return None
         return None
 
+    @memoize
     def named_expression(self) -> Any | None:
         # named_expression: assignment_expression | invalid_named_expression | expression !':='
         mark = self._mark()
